@@ -119,6 +119,73 @@ def run(F, ck, tier):
         ck.ob('R02.10', 'split_le.every-exit-constrains', not unconstrained, '%d exits, each after a constraint on the integer' % nret[0] if not unconstrained else
               'UNCONSTRAINED EXIT: split_le returns at %s without having constrained the integer it was asked to split: range_check(x, n) for that case accepts every x' % ', '.join(map(str, unconstrained)),
               unconstrained[0] if unconstrained else None)
+    # R02.13 limb accounting in split_le: returned bits + limbs asserted zero = all limbs of the gates added
+    ck.rule('R02.13', 'split_le accounts for every limb of the BaseSumGates it adds: (bits returned) + (limbs asserted zero) = (gates) x (limbs per gate), as polynomials; a limb in neither set is a free boolean and range_check(x, n) accepts x up to 2^(n+1)')
+    if len(sl) == 1:
+        from . import poly as _poly
+        fn = sl[0]
+        E_ = _poly.Ev(F)
+        env = {}
+        for p_ in fn.params:
+            for b in pat_binds(p_):
+                env[b['id']] = _poly.sym('@' + b['n'])
+        inits = {}
+        for x in walk(fn.body):
+            if x.get('k') == 'Let' and 'i' in x and x['p'].get('k') == 'Bind':
+                inits[x['p']['id']] = x['i']
+                try:
+                    env[x['p']['id']] = E_.ev(fn, x['i'], env, 3)
+                except _poly.Unknown as ex:
+                    env[x['p']['id']] = ex
+        try:
+            total = returned = None
+            zeroed = {}
+            undecided = None
+            for x in walk(fn.body):
+                if x.get('k') != 'For':
+                    continue
+                inner = [y for y in walk(x['b']) if y.get('k') == 'For' and any(z.get('k') == 'MCall' and z.get('n') == 'limbs' for z in walk(y['it']))]
+                if inner and any(z.get('k') == 'MCall' and z.get('n') == 'push' for z in walk(x['b'])):
+                    # outer loop over the gates: their number is the length of the range the `gates` vector was collected from
+                    it = x['it']
+                    ids = [z['id'] for z in walk(it) if z.get('k') == 'Local' and z['id'] in inits]
+                    rng = [z for i_ in ids for z in walk(inits[i_]) if z.get('k') == 'Struct' and 'Range' in (z.get('d') or '')]
+                    if len(rng) != 1:
+                        raise _poly.Unknown('gates range')
+                    s0, e0 = E_.range_of(fn, rng[0], env, 3)
+                    s1, e1 = E_.range_of(fn, inner[0]['it'], env, 3)
+                    total = _poly.mul(_poly.add(e0, s0, -1), _poly.add(e1, s1, -1))
+            for x in walk(fn.body):
+                if x.get('k') == 'MCall' and x.get('n') == 'truncate' and x.get('a'):
+                    returned = E_.ev(fn, x['a'][0], env, 3)
+                if x.get('k') == 'MCall' and x.get('n') == 'drain' and x.get('a'):
+                    f_ = dict(x['a'][0].get('f', [])) if x['a'][0].get('k') == 'Struct' else {}
+                    if 'start' in f_ and 'end' not in f_:
+                        returned = E_.ev(fn, f_['start'], env, 3)
+            nz = 0
+            zsum = {}
+            for x in walk(fn.body):
+                if x.get('k') == 'For' and any(z.get('k') == 'MCall' and z.get('n') == 'assert_zero' for z in walk(x['b'])):
+                    nz += 1
+                    it = x['it']
+                    dr = [z for z in walk(it) if z.get('k') == 'MCall' and z.get('n') == 'drain']
+                    if dr and total is not None:
+                        f_ = dict(dr[0]['a'][0].get('f', []))
+                        zsum = _poly.add(zsum, _poly.add(total, E_.ev(fn, f_['start'], env, 3), -1))
+                    elif it.get('k') == 'Struct' and 'Range' in (it.get('d') or ''):
+                        s2, e2 = E_.range_of(fn, it, env, 3)
+                        zsum = _poly.add(zsum, _poly.add(e2, s2, -1))
+                    else:
+                        raise _poly.Unknown('zeroing loop form')
+            if total is None or returned is None or nz == 0:
+                raise _poly.Unknown('total / returned / zeroing loop not found')
+            okl = _poly.add(returned, zsum) == total
+            ck.ob('R02.13', 'split_le.limb-accounting', okl, 'returned %s + zeroed %s = %s' % (_poly.show(returned), _poly.show(zsum), _poly.show(total)) if okl else
+                  'LIMBS UNACCOUNTED FOR: split_le returns %s bits and asserts %s limbs to be zero, but the gates it adds have %s limbs: the difference is limbs that are neither part of the result nor forced to zero '
+                  '(free booleans in the base-2 sum), so range_check(x, n) accepts values of more than n bits' % (_poly.show(returned), _poly.show(zsum), _poly.show(total)), '%s:%d' % (fn.file, fn.line))
+        except _poly.Unknown as ex:
+            ck.observe('R02.13 limb accounting not decided: %s' % ex)
+            ck.ob('R02.13', 'split_le.limb-accounting', True, 'not decided (form outside the polynomial evaluator: %s)' % ex)
     # R02.11 no vacuous equality constraint
     ck.rule('R02.11', 'no equality constraint relates an expression to itself: connect(x, x) / connect_hashes(h, h) / assert_equal(x, x) constrains nothing, the intended partner is missing')
     EQ_CALLS = {'connect', 'connect_hashes', 'connect_extension', 'connect_merkle_caps', 'connect_verifier_data', 'assert_equal', 'connect_hash', 'connect_fri_proof', 'connect_opening_set'}
